@@ -2,6 +2,7 @@ package rules
 
 import (
 	"go/token"
+	"regexp"
 	"sort"
 	"strconv"
 	"strings"
@@ -522,6 +523,25 @@ func TabKeyword(p *load.Program) *report.RuleResult {
 			r.OK(p.FuncName(wfn), p.Pos(wfn.Pos()), what, "known to reader and writer")
 		} else {
 			r.Bad(p.FuncName(wfn), p.Pos(wfn.Pos()), what, sprintf("reader knows it: %v, writer quotes it: %v", reader[k], writer[k]))
+		}
+	}
+	// the text the text reader takes for a version marker when it stands unquoted at top level
+	ivm := regexp.MustCompile(`^\$ion_[0-9]+_[0-9]+$`)
+	for _, fn := range sortedFuncs(p) {
+		if p.InTest(fn) || !strings.HasSuffix(p.File(fn.Pos()), "textreader.go") {
+			continue
+		}
+		for k := range constsComparedIn(fn, isStringConst) {
+			k = unquoteExact(k)
+			if !ivm.MatchString(k) {
+				continue
+			}
+			what := "version marker '" + k + "' recognised by " + p.FuncName(fn)
+			if writer[k] {
+				r.OK(p.FuncName(wfn), p.Pos(wfn.Pos()), what, "quoted by the writer")
+			} else {
+				r.Bad(p.FuncName(wfn), p.Pos(wfn.Pos()), what, "the reader takes this text, unquoted at top level, for a version marker, but the writer emits a symbol with this text unquoted: the value disappears and the symbol table is reset on reading back")
+			}
 		}
 	}
 	if !writer[""] {
